@@ -42,7 +42,8 @@ func (c18) Components() map[string]string {
 var c18EnvFaults = []string{"none", "diff-digest", "diff-size", "diff-mediatype", "drop-annotation", "alter-annotation", "add-annotation", "extra-payload-member", "extra-descriptor-member",
 	"spelling-TargetArtifact", "dup-good-then-bad", "dup-bad-then-good", "null-then-capital", "null-target", "other-format", "type-string-mismatch", "corrupt", "wrong-payload-type", "replay", "garbage", "empty", "corrupt-mid", "corrupt-payload", "rename-annotation", "drop-one-add-two", "recase-annotation-key",
 	"omit-digest", "omit-size", "omit-mediatype", "omit-annotations", "empty-target", "empty-payload",
-	"payload-type-recased", "payload-type-with-parameter", "payload-type-trailing-space", "payload-type-v2"}
+	"payload-type-recased", "payload-type-with-parameter", "payload-type-trailing-space", "payload-type-v2",
+	"mistyped-urls", "mistyped-data", "mistyped-platform", "second-annotations-nonstring", "target-then-array", "target-then-string"}
 var c18RawFaults = []string{"none", "describe-keyid", "describe-keyspec-garbage", "describe-keyspec-mismatch", "sign-keyid", "chain-other-key", "chain-empty", "chain-garbage", "sig-corrupt", "sig-other-payload", "sig-empty", "chain-reordered"}
 
 // op: I = [task, blob(0/1), key idx, format, envelope capability(0/1), fault idx, nannots]
@@ -63,7 +64,7 @@ func (c18) Gen(r *rand.Rand, tier string, idx int) *core.Plan {
 		for i, n := 0, 1+r.IntN(3); i < n; i++ {
 			fault := int64(0)
 			if r.IntN(4) != 0 {
-				fault = int64(1 + r.IntN(35))
+				fault = int64(1 + r.IntN(41))
 			}
 			p.Ops = append(p.Ops, core.Op{Task: t, Kind: "sign", I: []int64{int64(r.IntN(2)), int64(r.IntN(2)), fault, int64(r.IntN(3)), int64(r.IntN(1000))}})
 		}
@@ -236,6 +237,19 @@ func (l c18) Exec(env *core.Env) *core.Result {
 			custom = mk(map[string]any{"targetArtifact": m})
 		case "spelling-TargetArtifact":
 			custom = []byte(`{"TargetArtifact":` + gj + `}`)
+		// members of the wrong JSON type: the payload is a JSON document, it is not the requested descriptor
+		case "mistyped-urls":
+			custom = []byte(`{"targetArtifact":` + strings.Replace(gj, "{", `{"urls":5,`, 1) + `}`)
+		case "mistyped-data":
+			custom = []byte(`{"targetArtifact":` + strings.Replace(gj, "{", `{"data":{"a":1},`, 1) + `}`)
+		case "mistyped-platform":
+			custom = []byte(`{"targetArtifact":` + strings.Replace(gj, "{", `{"platform":"linux/amd64",`, 1) + `}`)
+		case "second-annotations-nonstring":
+			custom = []byte(`{"targetArtifact":` + gj[:len(gj)-1] + `,"annotations":{"org.example/0":7}}}`)
+		case "target-then-array":
+			custom = []byte(`{"targetArtifact":` + gj + `,"targetArtifact":[]}`)
+		case "target-then-string":
+			custom = []byte(`{"targetArtifact":` + gj + `,"targetArtifact":"sha256:abc"}`)
 		case "dup-good-then-bad":
 			custom = []byte(`{"targetArtifact":` + gj + `,"TargetArtifact":` + bj + `}`)
 		case "dup-bad-then-good":
